@@ -188,11 +188,11 @@ def arity_filter(ctx):
     for st, c, g, srcname in comps:
         origin = None
         for s in all_stmts(m.node):
-            if isinstance(s, ast.Assign) and any(isinstance(t, ast.Name) and t.id == srcname for t in s.targets) and isinstance(s.value, ast.Subscript):
-                b = s.value.value
-                if isinstance(b, ast.Subscript) and is_self_attr(b.value, "maps", selfname=rv):
-                    idx = b.slice
-                    origin = "leg" if (isinstance(idx, ast.UnaryOp) and isinstance(idx.op, ast.USub)) or (isinstance(idx, ast.Constant) and isinstance(idx.value, int) and idx.value < 0) else "main"
+            if isinstance(s, ast.Assign) and any(isinstance(t, ast.Name) and t.id == srcname for t in s.targets):
+                for b in ast.walk(s.value):
+                    if isinstance(b, ast.Subscript) and is_self_attr(b.value, "maps", selfname=rv):
+                        idx = b.slice
+                        origin = "leg" if (isinstance(idx, ast.UnaryOp) and isinstance(idx.op, ast.USub)) or (isinstance(idx, ast.Constant) and isinstance(idx.value, int) and idx.value < 0) else "main"
         if origin == "main":
             main.append((st, c, g))
         elif origin == "leg":
